@@ -77,8 +77,11 @@ fn culprit_of(rel: &Relation) -> Option<String> {
 }
 
 fn shape(feats: &[&'static str]) -> &'static str {
+    if feats.contains(&"alias_shadows_column") {
+        return if feats.contains(&"join_using") { "alias_shadows_column+join_using" } else { "alias_shadows_column" };
+    }
     for f in [
-        "set_operation", "join_using", "join_full", "join_right", "join_left", "join_cross", "join_inner", "group_by_expr", "having",
+        "cte_redefined_in_subquery", "set_operation", "join_using", "join_full", "join_right", "join_left", "join_cross", "join_inner", "group_by_expr", "having",
         "count_distinct", "sum_distinct", "expr_of_aggs", "agg_of_expr", "distinct", "group_by", "aggregate", "derived_table", "cte",
         "select_star", "limit", "order_by",
     ] {
